@@ -2,6 +2,7 @@ package main
 
 import (
 	"fmt"
+	"go/constant"
 	"go/token"
 	"go/types"
 	"sort"
@@ -21,6 +22,8 @@ func init() {
 	reg("C13", "C13.I", "E1", "field invariants the reviewed table relies on (parallel slices written only at Start; multi-line buffer keeps its first byte)", 8, ruleReviewedInvariants)
 	reg("C13", "C13.N", "E5", "no receiver-dereferencing node method on a possibly-nil Dig result", 1, ruleNilNodes)
 	reg("C13", "C13.M", "E1+E2", "metric label values (taken from event fields) are made valid UTF-8 before they reach a panicking prometheus Vec method", 4, ruleMetricLabelsSanitized)
+	reg("C13", "C13.P", "E2", "a pointer field the code itself treats as possibly nil is dereferenced in the event path only under a non-nil test", 1, ruleNilPointerFields)
+	reg("C13", "C13.F", "E6", "a float an action writes into the event is finite (integer conversion, or parsed with the error checked)", 1, ruleFiniteFloats)
 	reg("C13", "C13.D", "E2", "no integer division or remainder by a value that may be zero (reviewed table otherwise)", 1, ruleActionDivisions)
 	reg("C13", "C13.J", "E2", "the time-out exit of a joining action is unreachable: busy results only while the joining flag is true (same rule as C15.R7)", 1, ruleBusyOnlyWhileJoining)
 	reg("C13", "C13.A", "E6", "no unsafe view of plugin-owned or pooled storage is left in the event or returned", 1, ruleActionBufferViews)
@@ -901,4 +904,212 @@ func fromPool(v ssa.Value, d int) (bool, string) {
 func ruleActionBufferViews(c *Ctx, r *Rule) {
 	c.runBufferViews(r, c.actionScope())
 	r.Inst(1)
+}
+
+// ruleNilPointerFields: a pointer field of a plugin's own structs that the code itself treats as
+// possibly nil — it is compared with nil somewhere, or it is assigned the result of a module function
+// that can return the nil constant — is dereferenced in the event path only under a non-nil guard.
+func ruleNilPointerFields(c *Ctx, r *Rule) {
+	type fkey struct {
+		owner *types.Named
+		field string
+	}
+	maybe := map[fkey]string{}
+	nilReturning := func(f *ssa.Function) bool {
+		if f == nil || f.Blocks == nil || !c.inModule(f) {
+			return false
+		}
+		for _, ret := range returnsOf(f) {
+			res := retResults(ret)
+			if len(res) == 1 {
+				for _, leaf := range phiLeaves(res[0]) {
+					if isNilConst(leaf) {
+						return true
+					}
+				}
+			}
+		}
+		return false
+	}
+	isPtrToStruct := func(t types.Type) bool {
+		p, ok := t.Underlying().(*types.Pointer)
+		if !ok {
+			return false
+		}
+		_, isS := p.Elem().Underlying().(*types.Struct)
+		return isS
+	}
+	for _, fn := range c.ModFuncs {
+		if !strings.HasPrefix(c.pkgOf(fn), "plugin/action/") && c.pkgOf(fn) != "plugin/input/k8s" {
+			continue
+		}
+		for _, b := range fn.Blocks {
+			for _, in := range b.Instrs {
+				switch x := in.(type) {
+				case *ssa.BinOp:
+					if x.Op != token.EQL && x.Op != token.NEQ {
+						continue
+					}
+					for i, side := range []ssa.Value{x.X, x.Y} {
+						other := []ssa.Value{x.Y, x.X}[i]
+						if !isNilConst(other) || !isPtrToStruct(side.Type()) {
+							continue
+						}
+						if o, f, _, ok := loadedField(stripConv(side)); ok && o != nil && c.inModulePkg(o) {
+							if _, had := maybe[fkey{o, f}]; !had {
+								maybe[fkey{o, f}] = "compared with nil in " + c.fnName(fn)
+							}
+						}
+					}
+				case *ssa.Store:
+					if !isPtrToStruct(x.Val.Type()) {
+						continue
+					}
+					o, f, _, ok := fieldOf(x.Addr)
+					if !ok || o == nil || !c.inModulePkg(o) {
+						continue
+					}
+					for _, leaf := range phiLeaves(x.Val) {
+						if call, isCall := leaf.(*ssa.Call); isCall && nilReturning(call.Call.StaticCallee()) {
+							maybe[fkey{o, f}] = "assigned the result of " + c.fnName(call.Call.StaticCallee()) + ", which can return nil"
+						}
+					}
+				}
+			}
+		}
+	}
+	scope := c.actionScope()
+	nDeref := 0
+	for _, fn := range scope {
+		n := 0
+		for _, b := range fn.Blocks {
+			for _, in := range b.Instrs {
+				var recv ssa.Value
+				what := ""
+				switch x := in.(type) {
+				case ssa.CallInstruction:
+					cc := x.Common()
+					if cc.IsInvoke() || len(cc.Args) == 0 {
+						continue
+					}
+					g := cc.StaticCallee()
+					if g == nil || g.Signature.Recv() == nil {
+						continue
+					}
+					if _, isP := g.Signature.Recv().Type().Underlying().(*types.Pointer); !isP {
+						continue
+					}
+					recv, what = cc.Args[0], "method "+g.Name()
+				case *ssa.FieldAddr:
+					recv, what = x.X, "field access"
+				default:
+					continue
+				}
+				o, f, _, ok := loadedField(stripConv(recv))
+				if !ok || o == nil {
+					continue
+				}
+				why, isMaybe := maybe[fkey{o, f}]
+				if !isMaybe {
+					continue
+				}
+				nDeref++
+				n++
+				r.Inst(1)
+				guarded := false
+				want := c.path(stripConv(recv))
+				for _, l := range c.unitGuardsCtx(in) {
+					if op, a, bb, isCmp := cmpLit(l); isCmp && op == token.NEQ && isNilConst(bb) && c.path(stripConv(a)) == want {
+						guarded = true
+					}
+				}
+				r.Ob(guarded, fmt.Sprintf("%s|nil-field|%s.%s#%d", c.fnName(fn), o.Obj().Name(), f, n), in.Pos(),
+					fmt.Sprintf("%s on %s.%s, which may be nil (%s), happens only under a non-nil test", what, o.Obj().Name(), f, why))
+			}
+		}
+	}
+	r.Inst(1)
+	r.Ob(true, "scope", token.NoPos, fmt.Sprintf("%d possibly-nil pointer fields, %d dereferences in the event path", len(maybe), nDeref))
+}
+
+func (c *Ctx) inModulePkg(n *types.Named) bool {
+	p := n.Obj().Pkg()
+	return p != nil && (p.Path() == modulePath || strings.HasPrefix(p.Path(), modulePath+"/"))
+}
+
+// ruleFiniteFloats: insane-json writes a float with strconv formatting, so +Inf, -Inf and NaN end up
+// in the event as bare words that no JSON parser accepts. A float stored into the event by an action
+// must therefore be finite: converted from an integer, or parsed with the parser's error checked
+// (strconv.ParseFloat and jx.Num.Float64 report ErrRange together with ±Inf).
+func ruleFiniteFloats(c *Ctx, r *Rule) {
+	n := 0
+	for _, fn := range c.actionScope() {
+		for _, ci := range callsIn(fn) {
+			g := calleeFunc(ci)
+			if g == nil || g.Name() != "MutateToFloat" || g.Pkg == nil || g.Pkg.Pkg.Path() != insanePkg || len(ci.Common().Args) < 2 {
+				continue
+			}
+			n++
+			r.Inst(1)
+			ok, why := c.finiteFloat(ci.Common().Args[1], ci, 0)
+			r.Ob(ok, fmt.Sprintf("%s|finite-float#%d", c.fnName(fn), n), ci.Pos(), "the float written into the event is finite (±Inf / NaN are encoded as bare words: the event is no longer JSON)"+ifs(!ok, ": "+why))
+		}
+	}
+	r.Inst(1)
+	r.Ob(true, "scope", token.NoPos, fmt.Sprintf("%d float writes in the event path of actions", n))
+}
+
+func (c *Ctx) finiteFloat(v ssa.Value, at ssa.Instruction, d int) (bool, string) {
+	if d > 4 {
+		return false, "too deep"
+	}
+	switch x := v.(type) {
+	case *ssa.Const:
+		if x.Value != nil && x.Value.Kind() != constant.Unknown {
+			return true, ""
+		}
+	case *ssa.Convert:
+		if b, ok := x.X.Type().Underlying().(*types.Basic); ok && b.Info()&types.IsInteger != 0 {
+			return true, ""
+		}
+		return c.finiteFloat(x.X, at, d+1)
+	case *ssa.Phi:
+		for _, e := range x.Edges {
+			if ok, why := c.finiteFloat(e, at, d+1); !ok {
+				return false, why
+			}
+		}
+		return true, ""
+	case *ssa.UnOp:
+		if x.Op == token.MUL {
+			if cv := cellValue(x.X); cv != nil {
+				return c.finiteFloat(cv, at, d+1)
+			}
+		}
+	case *ssa.Extract:
+		call, ok := x.Tuple.(*ssa.Call)
+		if !ok || x.Index != 0 {
+			break
+		}
+		g := call.Call.StaticCallee()
+		if g == nil {
+			break
+		}
+		q := qualName(g)
+		if q != "strconv.ParseFloat" && !strings.HasSuffix(q, "jx.Num).Float64") && !strings.HasSuffix(q, "jx.Num.Float64") {
+			return false, "result of " + q
+		}
+		// the parser's error must be known to be nil where the value is written
+		for _, l := range c.unitGuardsCtx(at) {
+			if op, a, b, isCmp := cmpLit(l); isCmp && op == token.EQL && isNilConst(b) {
+				for _, leaf := range phiLeaves(stripConv(a)) {
+					if e, isE := leaf.(*ssa.Extract); isE && e.Tuple == x.Tuple && e.Index == 1 {
+						return true, ""
+					}
+				}
+			}
+		}
+		return false, "parsed by " + q + " but written without `err == nil` (an out-of-range number parses to ±Inf together with ErrRange)"
+	}
+	return false, "value " + c.path(v) + " is not known to be finite"
 }
